@@ -18,6 +18,9 @@ def main():
             print('=====', ob.oid, ob.origin)
             for f in ob.pc:
                 print('PC:', f)
+            for f in eng.standing:
+                print('STANDING:', f)
+            print('NOTES:', eng.notes)
             print('GOAL:', ob.goal)
             eng.solve(ob)
             print(ob.verdict, ob.reason)
